@@ -250,6 +250,12 @@ func TestGenC10(t *testing.T) {
 		}
 		check(cfg, p, res, false)
 	}
+	// (corpus) the known finding C10/stale-syn-completes-client-alone, deterministically
+	{
+		cfg := mk(20, false)
+		p := hsParams{class: "stale-same-n", staleBA: [][]byte{syn(20)}, pattern: [2][]string{{"drop"}, {}}, sendData: true}
+		check(cfg, p, runHandshakeScenario(t, l, q, cfg, p), false)
+	}
 	// (c) stale packets of an earlier connection in either direction, then faults
 	stalePool := func(n int) [][]byte {
 		return [][]byte{syn(n), {6}, {2, 0, 1, 0, 9}, {3, 0}, {4, 0}, {5}, {2, 1, 1, 1}}
